@@ -5,32 +5,62 @@ From Sky Require Import Base.Uint Model.ArithSpec Gen.Mathutil Model.Ledger Mode
 From Coq Require Import Lia ZifyBool Permutation.
 Open Scope Z_scope.
 
-(* ---- induction over histories *)
-Lemma run_invariant (P : state -> Prop) (Q : block -> Prop) :
-  (forall s b s', exec_block s b = (s', Accepted) -> Q b -> P s -> P s') ->
-  forall ops s, P s -> Forall (fun o => Q (op_block o)) ops -> P (run s ops).
+(* mathutil.AddUint64 folded over a list: the 64-bit result is the Z sum *)
+Lemma add_all_spec l : forall acc v, in_u 64 acc -> Forall (in_u 64) l ->
+  add_all acc l = Val (Some v) -> v = acc + sumZ l /\ in_u 64 v.
 Proof.
-  intros Hstep. induction ops as [|o r IH]; intros s Hs Hq; [exact Hs|].
-  inversion Hq as [|? ? Hq1 Hq2]; subst. unfold run. cbn [fold_left]. fold (run (fst (step s o)) r).
-  apply IH; [|assumption]. destruct o as [b]. cbn [step op_block] in *.
-  destruct (exec_block s b) as [s1 out] eqn:E. cbn [fst].
-  destruct out.
-  - exact (Hstep _ _ _ E Hq1 Hs).
-  - rewrite (exec_reject_noop _ _ _ _ E); [assumption|discriminate].
-  - rewrite (exec_reject_noop _ _ _ _ E); [assumption|discriminate].
+  induction l as [|x r IH]; cbn [add_all sumZ]; intros acc v Ha Hl H.
+  - inversion H; subst. split; [lia|assumption].
+  - inversion Hl as [|? ? Hx Hr]; subst.
+    rewrite (AddUint64_spec acc x Ha Hx) in H. unfold ret_or_err in H.
+    destruct (acc + x <? 2 ^ 64) eqn:E; cbn [bind is_err] in H; [|discriminate].
+    assert (Hin : in_u 64 (acc + x)) by (unfold in_u in *; lia).
+    destruct (IH (acc + x) v Hin Hr H) as [H1 H2]. split; [lia|assumption].
+Qed.
+Lemma add_all_nopanic l : forall acc, in_u 64 acc -> Forall (in_u 64) l -> add_all acc l <> Panic.
+Proof.
+  induction l as [|x r IH]; cbn [add_all]; intros acc Ha Hl; [discriminate|].
+  inversion Hl as [|? ? Hx Hr]; subst.
+  rewrite (AddUint64_spec acc x Ha Hx). unfold ret_or_err.
+  destruct (acc + x <? 2 ^ 64) eqn:E; cbn [bind is_err]; [|discriminate].
+  apply IH; [unfold in_u in *; lia|assumption].
 Qed.
 
-Lemma run_app s a b : run s (a ++ b) = run (run s a) b.
-Proof. unfold run. apply fold_left_app. Qed.
 
-(* ---- created outputs *)
-Lemma ids_app a b : ids (a ++ b) = ids a ++ ids b.
-Proof. unfold ids. apply map_app. Qed.
-Lemma created_ids_eq b : ids (created b) = out_ids (b_txns b).
+(* ---- the coin checks of one transaction *)
+Lemma coins_spending_inv uxin outs : coins_spending uxin outs = Pass ->
+  Forall (fun u => in_u 64 (u_coins u)) uxin -> Forall (fun o => in_u 64 (o_coins o)) outs ->
+  coins_of uxin = sumZ (map o_coins outs) /\ in_u 64 (coins_of uxin).
 Proof.
-  unfold created, out_ids, ids. induction (b_txns b) as [|t r IH]; cbn [flat_map]; [reflexivity|].
-  rewrite !map_app, IH. f_equal. unfold created_of. rewrite map_map. reflexivity.
+  unfold coins_spending, coins_of. intros H Hi Ho.
+  assert (Hi' : Forall (in_u 64) (map u_coins uxin)) by (apply Forall_map; assumption).
+  assert (Ho' : Forall (in_u 64) (map o_coins outs)) by (apply Forall_map; assumption).
+  assert (H0 : in_u 64 0) by (unfold in_u; lia).
+  destruct (add_all 0 (map u_coins uxin)) as [|[cin|]] eqn:E1; try discriminate.
+  destruct (add_all 0 (map o_coins outs)) as [|[cout|]] eqn:E2; try discriminate.
+  destruct (add_all_spec _ _ _ H0 Hi' E1) as [A1 A2].
+  destruct (add_all_spec _ _ _ H0 Ho' E2) as [B1 B2].
+  chk_split H. apply guard_pass in Hc, H.
+  split; [lia|]. replace (sumZ (map u_coins uxin)) with cin by lia. assumption.
 Qed.
+
+Lemma block_txn_inv pool head t : block_txn_constraints pool head t = Pass ->
+  Forall (fun u => in_u 64 (u_coins u)) pool -> Forall (fun o => in_u 64 (o_coins o)) (t_outs t) ->
+  exists uxin, get_array (t_ins t) pool = Some uxin /\
+    t_ins t <> [] /\ NoDup (t_ins t) /\ NoDup (map o_id (t_outs t)) /\
+    coins_of uxin = sumZ (map o_coins (t_outs t)) /\ in_u 64 (coins_of uxin).
+Proof.
+  unfold block_txn_constraints. intros H Hp Ho.
+  destruct (get_array (t_ins t) pool) as [uxin|] eqn:E; [|discriminate].
+  chk_split H. destruct (txn_verify_inv _ Hc) as [V1 [V2 [V3 [V4 [V5 V6]]]]].
+  assert (Hu : Forall (fun u => in_u 64 (u_coins u)) uxin).
+  { destruct (get_array_spec _ _ _ E) as [_ G2]. rewrite Forall_forall in *. auto. }
+  destruct (coins_spending_inv _ _ Hc2 Hu Ho) as [C1 C2].
+  exists uxin. split; [reflexivity|]. split; [assumption|]. split; [assumption|]. split; [assumption|].
+  split; assumption.
+Qed.
+
+
 Definition txn_out_coins (t : txn) : Z := sumZ (map o_coins (t_outs t)).
 Lemma created_coins b : coins_of (created b) = sumZ (map txn_out_coins (b_txns b)).
 Proof.
@@ -65,22 +95,6 @@ Qed.
 (* ---- the invariant *)
 Definition inv_supply (G : Z) (s : state) : Prop :=
   NoDup (ids (utxo s)) /\ Forall (fun u => in_u 64 (u_coins u)) (utxo s) /\ coins_of (utxo s) = G.
-
-Lemma apply_block_utxo s b spent :
-  utxo (apply_block s b spent) = remove_ids (all_ins (b_txns b)) (utxo s) ++ created b.
-Proof. reflexivity. Qed.
-
-Lemma new_utxo_nodup s b :
-  NoDup (ids (utxo s)) -> NoDup (out_ids (b_txns b)) -> insert_ok s b = true ->
-  NoDup (ids (remove_ids (all_ins (b_txns b)) (utxo s) ++ created b)).
-Proof.
-  intros Hn Ho Hi. rewrite ids_app. apply NoDup_app_intro.
-  - apply NoDup_ids_filter. assumption.
-  - rewrite created_ids_eq. assumption.
-  - intros x Hx Hc. unfold ids in Hc at 1. apply in_map_iff in Hc. destruct Hc as [u [Hu1 Hu2]].
-    unfold insert_ok in Hi. rewrite forallb_forall in Hi. specialize (Hi u Hu2).
-    apply Bool.negb_true_iff in Hi. apply memZ_false in Hi. subst x. contradiction.
-Qed.
 
 (* the step of the invariant needs only the transaction-level checks and the
    unspent-set update (whatever the header checks decided) *)
